@@ -335,6 +335,206 @@ func c20Run(a *acc, rng *rand.Rand, c *c20Case, buf gopacket.SerializeBuffer, fu
 	}
 }
 
+// ---- serialization options x what the upper layer was used for before ----
+//
+// The checksum "written when serializing" is written by a layer object under
+// SerializeOptions. Both are dimensions of their own: callers ask for
+// FixLengths+ComputeChecksums, or (two-pass pattern: a first pass fixes the
+// lengths, a second one only computes checksums; or lengths maintained by the
+// caller) for ComputeChecksums alone; and the slayers.UDP / slayers.SCMP object
+// may be new, may have been serialized before (then it carries the checksum of
+// that pass, of this or of another packet), may have been filled by
+// DecodeFromBytes (re-serializing a received packet), or its Checksum field may
+// hold anything. c20Options takes a case through all combinations; wherever
+// ComputeChecksums is set the written value must satisfy the same reference as
+// everywhere in this check (pseudo header and upper-layer bytes fold to
+// 0xFFFF), and for PRNG-chosen combinations a single-bit change of a covered
+// input, taken through the same combination, must verify and change the field.
+
+var c20Priors = []string{"fresh", "reserialized-same-packet", "reserialized-other-packet",
+	"decoded-same-packet", "decoded-other-packet", "garbage-checksum"}
+
+func c20OptName(fix bool) string {
+	if fix {
+		return "fixlengths+computechecksums"
+	}
+	return "computechecksums-only"
+}
+
+func (c *c20Case) layerName() string {
+	if c.Proto == protoUDP {
+		return "udp"
+	}
+	return "scmp"
+}
+
+// serializeOpt serializes the case through new SCION (and E2E) layers and the
+// given upper-layer object, whatever state that is in. fix: FixLengths and
+// ComputeChecksums; otherwise ComputeChecksums alone, every length field having
+// been set by the caller (here: from the layout the specification gives).
+func (c *c20Case) serializeOpt(buf gopacket.SerializeBuffer, fix bool, udp *slayers.UDP, scmp *slayers.SCMP) ([]byte, error) {
+	l4len := c.l4HdrLen() + len(c.Pld)
+	scn := &slayers.SCION{
+		FlowID: 0xabcde, NextHdr: slayers.L4ProtocolType(c.Proto),
+		PathType: empty.PathType, Path: empty.Path{},
+	}
+	c.Addr.applyTo(scn)
+	layers := []gopacket.SerializableLayer{scn}
+	extLen := 0
+	if c.Ext {
+		// one option of 4 data bytes: 2 + 2 + 4 = 8 bytes = ExtLen 1, no padding needed
+		extLen = 8
+		scn.NextHdr = slayers.End2EndClass
+		e2e := &slayers.EndToEndExtn{}
+		e2e.NextHdr = slayers.L4ProtocolType(c.Proto)
+		e2e.ExtLen = 1
+		e2e.Options = []*slayers.EndToEndOption{{OptType: 77, OptData: []byte{1, 2, 3, 4}, OptDataLen: 4}}
+		layers = append(layers, e2e)
+	}
+	if !fix {
+		scn.HdrLen = uint8((12 + 16 + len(c.Addr.Dst) + len(c.Addr.Src)) / 4) // empty path
+		scn.PayloadLen = uint16(extLen + l4len)
+	}
+	if c.Proto == protoUDP {
+		udp.SrcPort, udp.DstPort = binary.BigEndian.Uint16(c.Hdr[0:]), binary.BigEndian.Uint16(c.Hdr[2:])
+		if !fix {
+			udp.Length = uint16(l4len) // RFC 768: header and data
+		}
+		udp.SetNetworkLayerForChecksum(scn)
+		layers = append(layers, udp)
+	} else {
+		scmp.TypeCode = slayers.CreateSCMPTypeCode(slayers.SCMPType(c.Typ), slayers.SCMPCode(c.Code))
+		scmp.SetNetworkLayerForChecksum(scn)
+		layers = append(layers, scmp)
+		layers = append(layers, implSCMPLayers(scn, c.Typ, c.Code, c.Hdr)[1:]...)
+	}
+	layers = append(layers, gopacket.Payload(c.Pld))
+	if err := gopacket.SerializeLayers(buf, gopacket.SerializeOptions{FixLengths: fix, ComputeChecksums: true}, layers...); err != nil {
+		return nil, err
+	}
+	all := buf.Bytes()
+	if len(all) != 12+16+len(c.Addr.Dst)+len(c.Addr.Src)+extLen+l4len {
+		return nil, fmt.Errorf("serialized packet has %d bytes, the layout needs %d", len(all), 12+16+len(c.Addr.Dst)+len(c.Addr.Src)+extLen+l4len)
+	}
+	return all[len(all)-l4len:], nil // valid until buf is used again
+}
+
+// c20Prior returns an upper-layer object in the named state.
+func (c *c20Case) c20Prior(prior string, other *c20Case, garbage uint16, buf gopacket.SerializeBuffer) (udp *slayers.UDP, scmp *slayers.SCMP, err error) {
+	udp, scmp = &slayers.UDP{}, &slayers.SCMP{}
+	src := c
+	switch prior {
+	case "fresh":
+	case "garbage-checksum":
+		udp.Checksum, scmp.Checksum = garbage, garbage
+	case "reserialized-other-packet":
+		src = other
+		fallthrough
+	case "reserialized-same-packet":
+		_, err = src.serializeOpt(buf, true, udp, scmp)
+	case "decoded-other-packet":
+		src = other
+		fallthrough
+	case "decoded-same-packet":
+		var l4 []byte
+		if l4, err = src.serialize(buf); err != nil {
+			return
+		}
+		if c.Proto == protoUDP {
+			err = udp.DecodeFromBytes(l4, gopacket.NilDecodeFeedback)
+		} else {
+			err = scmp.DecodeFromBytes(l4, gopacket.NilDecodeFeedback)
+		}
+	}
+	return
+}
+
+// c20OptOne takes c through one combination and judges the checksum written.
+func c20OptOne(a *acc, c, other *c20Case, prior string, fix bool, garbage uint16, buf gopacket.SerializeBuffer, flip string) (field uint16, ok bool) {
+	layer, opt := c.layerName(), c20OptName(fix)
+	key := "C20:options:" + layer + ":" + prior + ":" + opt
+	desc := fmt.Sprintf("prior state %s, options %s", prior, opt)
+	if flip != "" {
+		desc += ", " + flip
+	}
+	var l4 []byte
+	var err error
+	var stage string
+	if p, stack := mon.Try(func() {
+		var udp *slayers.UDP
+		var scmp *slayers.SCMP
+		stage = "preparing the layer"
+		if udp, scmp, err = c.c20Prior(prior, other, garbage, buf); err != nil {
+			return
+		}
+		stage = "serializing"
+		l4, err = c.serializeOpt(buf, fix, udp, scmp)
+	}); p != nil {
+		a.violation("C20:panic:"+mon.PanicSite(stack), fmt.Sprintf("panic while %s (%s): %v\n%s", stage, desc, p, stack), c.wit(desc, nil, 0))
+		return 0, false
+	}
+	if err != nil {
+		if stage == "serializing" {
+			a.violation(key, fmt.Sprintf("%s %s fails (%s): %v", stage, c.Kind, desc, err), c.wit(desc, nil, 0))
+		} else {
+			a.incon["options-prior-state-not-built"]++ // the ordinary path of this check reports that
+		}
+		return 0, false
+	}
+	a.evals++
+	field = binary.BigEndian.Uint16(l4[c.csumOff():])
+	if fold := c.refFold(l4); fold != 0xFFFF {
+		a.violation(key, fmt.Sprintf(
+			"%s (%s): the checksum %#04x written makes pseudo header and the %d upper-layer bytes fold to %#04x, not 0xffff",
+			c.Kind, desc, field, len(l4), fold), c.wit(desc, l4, fold))
+		return field, false
+	}
+	a.event("options_verified")
+	return field, true
+}
+
+func c20Options(a *acc, rng *rand.Rand, c *c20Case, buf gopacket.SerializeBuffer) {
+	// another packet of the same kind: other payload bytes and length, other source AS
+	other := c.clone()
+	for k := 1 + rng.IntN(9); k > 0; k-- {
+		other.Pld = append(other.Pld, byte(rng.Uint32()))
+	}
+	if len(other.Pld) > 1 {
+		other.Pld[0] ^= byte(1 + rng.IntN(255))
+	}
+	other.Addr.SrcIA ^= 1 << rng.IntN(64)
+	garbage := uint16(1 + rng.IntN(0xFFFF))
+	// one single-bit change of a covered input, taken through two of the combinations
+	fl := c.flips(rng, false)
+	f := fl[rng.IntN(len(fl))]
+	d := c.apply(f)
+	n := 2 * len(c20Priors)
+	pick1, pick2 := rng.IntN(n), rng.IntN(n)
+	layer := c.layerName()
+	for pi, prior := range c20Priors {
+		for oi, fix := range []bool{true, false} {
+			field, ok := c20OptOne(a, c, other, prior, fix, garbage, buf, "")
+			a.class("options/" + layer + "/" + prior + "/" + c20OptName(fix))
+			if k := 2*pi + oi; !ok || (k != pick1 && k != pick2) {
+				continue
+			}
+			desc := fmt.Sprintf("%s bit %d changed", f.field, f.bit)
+			field2, ok := c20OptOne(a, d, other, prior, fix, garbage, buf, desc)
+			if !ok {
+				continue
+			}
+			a.evals++
+			a.event("options_flip")
+			a.class("options-flip/" + layer + "/" + c20OptName(fix))
+			if field2 == field {
+				a.violation("C20:options:"+layer+":"+prior+":"+c20OptName(fix), fmt.Sprintf(
+					"%s (prior state %s, options %s): changing %s bit %d leaves the checksum at %#04x", c.Kind, prior, c20OptName(fix), f.field, f.bit, field),
+					c.wit(desc, nil, 0xFFFF))
+			}
+		}
+	}
+}
+
 func c20GenAddr(rng *rand.Rand, idx int) refAddrHdr {
 	a := refAddrHdr{DT: uint8(idx>>4) & 15, ST: uint8(idx) & 15}
 	if idx >= 256 {
@@ -783,12 +983,17 @@ func checkC20(r *mon.Run) {
 		"(next case; other host of the same AS pair; address bit flipped in the buffer; ISD-AS bit changed; first packet again), addresses " +
 		"swapped for the reply, and one long-lived layer whose addresses the application rewrites in place, with long-lived UDP and SCMP " +
 		"layers; after every step both upper layers are serialized and the reference sum over the pseudo header read from the serialized " +
-		"packet must be 0xFFFF, single-bit changes must change the checksum; reuse/<scenario>"
+		"packet must be 0xFFFF, single-bit changes must change the checksum; reuse/<scenario>. Options monitor: every case once more through " +
+		"{FixLengths+ComputeChecksums, ComputeChecksums alone with all length fields set by the caller} x {new slayers.UDP/SCMP object, object " +
+		"serialized before for this packet, for another packet, object filled by DecodeFromBytes from this packet, from another packet, object " +
+		"whose Checksum field holds a PRNG value}: same reference sum; for two PRNG-chosen combinations per case a single-bit input change " +
+		"through the same combination must verify and change the field; options/<layer>/<prior state>/<options>"
 	r.Assumptions = []string{
 		"the pseudo header is the one of scion-header.rst: DstIA, SrcIA, DstHost, SrcHost, 32-bit upper-layer length, 24 zero bits, protocol number of the upper layer (not NextHdr)",
 		"the upper-layer length is the number of upper-layer bytes on the wire (for UDP this equals the Length field written with FixLengths)",
 		"payload lengths are limited to 9000 as in the property's quantifier",
 		"reuse monitor: requests carry an empty path and no extension header; the second upper layer of every step is serialized with at most 41 payload bytes, the steps on the application-filled layer as well",
+		"options monitor: without FixLengths the caller's lengths are the correct ones (HdrLen, PayloadLen, ExtLen, UDP Length from the specified layout); what is written when ComputeChecksums is not set is not judged (the statement speaks of the checksum written by the serializer)",
 	}
 	if f := r.ReplayFile(); f != "" {
 		b, err := os.ReadFile(f)
@@ -837,6 +1042,9 @@ func checkC20(r *mon.Run) {
 		}
 		a := newAcc()
 		c20Run(a, r.Rand("replay"), c, gopacket.NewSerializeBuffer(), true)
+		for k := 0; k < 8; k++ { // the PRNG-chosen parts (other packet, garbage, which bit) several times
+			c20Options(a, r.Rand(fmt.Sprint("replay/options/", k)), c, gopacket.NewSerializeBuffer())
+		}
 		a.sample(rec.Witness)
 		a.class("replay")
 		a.flush(r)
@@ -890,10 +1098,12 @@ func checkC20(r *mon.Run) {
 	ntasks := (len(cases) + chunk - 1) / chunk
 	runTasks(r, ntasks, func(t int, a *acc) {
 		rng := r.Rand(fmt.Sprintf("c20/flips/%d", t))
+		orng := r.Rand(fmt.Sprintf("c20/options/%d", t))
 		buf := gopacket.NewSerializeBuffer()
 		for i := t * chunk; i < (t+1)*chunk && i < len(cases); i++ {
 			c := cases[i]
 			c20Run(a, rng, c, buf, c.l4HdrLen()+len(c.Pld) <= 256)
+			c20Options(a, orng, c, buf)
 			if i%997 == 5 {
 				w := c.wit("", nil, 0xFFFF)
 				if len(w.Pld) > 64 {
@@ -914,7 +1124,7 @@ func checkC20(r *mon.Run) {
 	r.Extra("cases", len(cases))
 	need := []string{"odd_length", "even_length", "wire_flip", "flip_dst-ia", "flip_src-ia", "flip_dst-host", "flip_src-host",
 		"flip_l4-field", "flip_payload", "flip_length", "flip_scmp-code", "checksum_udp", "checksum_scmp-other-type",
-		"reuse_serialize_udp", "reuse_serialize_scmp", "reuse_verified"}
+		"reuse_serialize_udp", "reuse_serialize_scmp", "reuse_verified", "options_verified", "options_flip"}
 	for _, t := range scmpTypes {
 		need = append(need, "checksum_scmp-"+scmpNames[t])
 	}
@@ -924,4 +1134,12 @@ func checkC20(r *mon.Run) {
 		"reuse/own-layer/next-addresses-written-in-place", "reuse/own-layer/address-slices-replaced",
 		"reuse/own-layer/host-bit-in-place", "reuse/own-layer/hosts-rewritten-in-place", "reuse/own-layer/ia-bit",
 		"reuse/udp", "reuse/scmp-echo-request", "reuse/scmp-other-type")
+	for _, l := range []string{"udp", "scmp"} {
+		for _, fix := range []bool{true, false} {
+			for _, p := range c20Priors {
+				r.RequireClasses("options/" + l + "/" + p + "/" + c20OptName(fix))
+			}
+			r.RequireClasses("options-flip/" + l + "/" + c20OptName(fix))
+		}
+	}
 }
